@@ -45,7 +45,8 @@ from props import c01_flavours as fl
 from props import c01_exc as xc
 
 ID = "C01"
-RULE = ("expr: exhaustive cross 35 dunders x operand kinds x length pairs x call route (direct dunder / operator "
+RULE = ("operand objects between iterable and scalar (indexable, no __iter__: Vec2, Indexable, LenIndexable, Poly, TableLookup; predicates observed with isinstance/iter/hasattr, classified by the model) on the other side of all 32 binary dunders x routes, numeric vector arithmetic, nested; broadcast functions x 9 user subclasses of tuple/list/set/frozenset/deque + a user Sequence by position and keyword (observation: type(res) is type(arg)); "
+        "expr: exhaustive cross 35 dunders x operand kinds x length pairs x call route (direct dunder / operator "
         "syntax) over symbolic tracer elements (non-commutative, so operand order is visible), the same over "
         "numeric element families; flavour cross: ~120 operand flavours (every itertools / builtin lazy iterator, finite and "
         "endless, raw, inside a Stream, through the lazy_itertools wrappers, behind Stream subclasses / tee copies) x position "
@@ -194,8 +195,15 @@ def _sym_bin(name, refl):
         if isinstance(other, Iterable) and not isinstance(other, str):
             return NotImplemented       # like a well-behaved number type: let the Stream handle it
         a, b = (other, self) if refl else (self, other)
-        return Sym("%s(%r,%r)" % (name, a, b))
+        return Sym("%s(%s,%s)" % (name, _stable_repr(a), _stable_repr(b)))
     return f
+
+
+def _stable_repr(x):
+    """ repr, made stable for the library's TableLookup (which has none of its own) """
+    if type(x).__name__ == "TableLookup":
+        return "TableLookup(%r, cycles=%r)" % (x.table, x.cycles)
+    return repr(x)
 
 
 for _n in ARITH:
@@ -205,6 +213,14 @@ for _n in CMP:
     setattr(Sym, "__%s__" % _n, _sym_bin(_n, False))
 for _n in UNARY:
     setattr(Sym, "__%s__" % _n, (lambda n: lambda self: Sym("%s(%r)" % (n, self)))(_n))
+
+
+def _install_vec_ops():
+    for n in ARITH:
+        setattr(Vec2, "__%s__" % n, _vec_bin(n, False))
+        setattr(Vec2, "__r%s__" % n, _vec_bin(n, True))
+    for n in ("lt", "le", "gt", "ge"):
+        setattr(Vec2, "__%s__" % n, _vec_cmp(n))
 
 
 class Mat(object):
@@ -231,10 +247,120 @@ class Mat(object):
         return "Mat(%r)" % (self.m,)
 
 
+class Vec2(object):
+    """ exact 2D vector value type: INDEXABLE (`__getitem__`, `__len__`) but no `__iter__`, so it is no
+        `collections.abc.Iterable` although `iter()` accepts it (legacy sequence protocol).  Arithmetic is
+        componentwise (with another Vec2 or with a number), `@` is the dot product. """
+    __slots__ = ("a", "b")
+
+    def __init__(self, a, b):
+        self.a, self.b = a, b
+
+    def __getitem__(self, i):
+        if i in (0, 1):
+            return (self.a, self.b)[i]
+        raise IndexError(i)
+
+    def __len__(self):
+        return 2
+
+    def __repr__(self):
+        return "Vec2(%s, %s)" % (canon(self.a), canon(self.b))
+
+    def __eq__(self, o):
+        if not isinstance(o, Vec2):
+            return NotImplemented
+        return bool(self.a == o.a) and bool(self.b == o.b)
+
+    def __ne__(self, o):
+        if not isinstance(o, Vec2):
+            return NotImplemented
+        return not (bool(self.a == o.a) and bool(self.b == o.b))
+
+    __hash__ = None
+
+
+def _vec_bin(name, refl):
+    fn = getattr(operator, "__%s__" % name)
+
+    def f(self, other, *_):
+        if isinstance(other, Iterable) and not isinstance(other, str):
+            return NotImplemented       # let the Stream handle it
+        if isinstance(other, (Indexable, LenIndexable)):
+            return NotImplemented
+        oa, ob = (other.a, other.b) if isinstance(other, Vec2) else (other, other)
+        if name == "matmul":
+            if not isinstance(other, Vec2):
+                return NotImplemented
+            return self.a * oa + self.b * ob
+        if refl:
+            return Vec2(fn(oa, self.a), fn(ob, self.b))
+        return Vec2(fn(self.a, oa), fn(self.b, ob))
+    return f
+
+
+def _vec_cmp(name):
+    fn = getattr(operator, "__%s__" % name)
+
+    def f(self, other):
+        if not isinstance(other, Vec2):
+            return NotImplemented
+        return fn((self.a, self.b), (other.a, other.b))
+    return f
+
+
+class Indexable(object):
+    """ only `__getitem__` (no `__len__`, no `__iter__`, no arithmetic): `iter()` walks it, `isinstance(·, Iterable)` is False """
+    def __init__(self, xs):
+        self.xs = list(xs)
+
+    def __getitem__(self, i):
+        return self.xs[i]
+
+    def __repr__(self):
+        return "Indexable([%s])" % ", ".join(canon(x) for x in self.xs)
+
+
+class LenIndexable(Indexable):
+    """ `__len__` + `__getitem__`, still no `__iter__` """
+    def __len__(self):
+        return len(self.xs)
+
+    def __repr__(self):
+        return "LenIndexable([%s])" % ", ".join(canon(x) for x in self.xs)
+
+
+OBJECT_KEYS = ("V", "G", "LG", "P", "TL")       # element encodings of operand OBJECTS (see `dec_val`)
+
+
+def is_object_enc(j):
+    return isinstance(j, dict) and any(k in j for k in OBJECT_KEYS)
+
+
+def observe_operand(v):
+    """ the observable predicates of an operand (python's own tests, no library code) and what `iter()` would deliver """
+    abc = isinstance(v, Iterable)
+    try:
+        it_ = iter(v)
+        works = True
+    except TypeError:
+        it_, works = None, False
+    n_items = 0
+    if works and not abc:
+        try:
+            for _ in it.islice(it_, 4):
+                n_items += 1
+        except Exception:
+            pass
+    return {"abc": abc, "iter": works, "getitem": hasattr(type(v), "__getitem__"), "len": hasattr(type(v), "__len__"),
+            "n_items": n_items}
+
+
 class _Timeout(BaseException):
     pass
 
 
+_install_vec_ops()
 _AL = []
 
 
@@ -304,6 +430,16 @@ def dec_val(j):
             return tuple(dec_val(x) for x in j["Z"])     # a tuple element (what zip / enumerate deliver)
         if "B" in j:
             return xc.Boom(j["B"])  # an element on which every operation raises this exception
+        if "V" in j:
+            return Vec2(dec_val(j["V"][0]), dec_val(j["V"][1]))      # an indexable value object (no Iterable)
+        if "G" in j:
+            return Indexable([dec_val(x) for x in j["G"]])
+        if "LG" in j:
+            return LenIndexable([dec_val(x) for x in j["LG"]])
+        if "P" in j:            # the library's own polynomial: `__getitem__` that never raises, not iterable
+            return AL().Poly(dict((i, dec_val(x)) for i, x in enumerate(j["P"])))
+        if "TL" in j:           # the library's own lookup table: `__len__` + `__getitem__`, not iterable
+            return AL().TableLookup([dec_val(x) for x in j["TL"]])
         raise ValueError("unknown element encoding %r" % (j,))
     return j                        # int, bool, float, None
 
@@ -316,6 +452,8 @@ def canon(v):
         return "complex:nan"
     if isinstance(v, (list, tuple)):
         return "%s:[%s]" % (type(v).__name__, ",".join(canon(x) for x in v))
+    if type(v).__name__ == "TableLookup":
+        return "TableLookup:" + _stable_repr(v)
     if type(v) is int and v.bit_length() > 4000:
         return "int:huge:%d bits:%d" % (v.bit_length(), v % 1000003)      # (repr of such an int is refused by python 3.12)
     return "%s:%r" % (type(v).__name__, v)
@@ -385,7 +523,15 @@ def number(node, st=None, n=0):
         st["next"] += 1
         st["env"][i] = v
         return i
-    if k in ("scalar", "ignored"):
+    if k == "scalar" and is_object_enc(node["c"]):
+        # an OBJECT as operand: the driver is told what can be observed about it, the model classifies it
+        v = dec_val(node["c"])
+        ob = observe_operand(v)
+        i = fresh(v)
+        r = {"k": "operand", "c": i, "ignored": False, "abc": ob["abc"], "iter": ob["iter"], "getitem": ob["getitem"],
+             "len": ob["len"], "tag": 900000 + i,
+             "xs": [1000000 + 8 * i + q for q in range(ob["n_items"])]}     # atoms of what iter() would deliver: in no env
+    elif k in ("scalar", "ignored"):
         v = Ignored(node.get("c")) if k == "ignored" else dec_val(node["c"])
         r = {"k": k, "c": fresh(v)}
     elif k == "iterable":
@@ -1099,6 +1245,76 @@ def cross_cases(tier):
 
 
 # ------------------------------------------------------------------------------------------------
+# operand OBJECTS between "iterable" and "scalar": indexable but no Iterable (iter() works through __getitem__)
+# ------------------------------------------------------------------------------------------------
+def operand_objects(fam="sym"):
+    """ (name, element encoding, routes allowed) — objects whose own dunders could take a Stream are called directly """
+    if fam == "sym":
+        return [("Vec2", {"V": [{"S": "va"}, {"S": "vb"}]}, None),
+                ("Vec2.num", {"V": [2, {"F": [1, 2]}]}, None),
+                ("Indexable", {"G": [{"S": "g0"}, {"S": "g1"}]}, None),
+                ("LenIndexable", {"LG": [{"S": "h0"}, {"S": "h1"}, {"S": "h2"}, {"S": "h3"}, {"S": "h4"}]}, None),
+                ("LenIndexable.empty", {"LG": []}, None),
+                ("Poly", {"P": [1, 2]}, ["direct"]),
+                ("TableLookup", {"TL": [1, 2, 3, 4]}, ["direct"])]
+    return [("Vec2.num", {"V": [2, {"F": [1, 2]}]}, None), ("Vec2.int", {"V": [3, -2]}, None)]
+
+
+VEC_NUM = {
+    # streams of numbers against an exact vector, streams of vectors against a vector (`@`, `==`, lexicographic order)
+    "int": ([7, -3, 12, 5], ["add", "sub", "mul", "floordiv", "mod", "truediv", "pow", "and", "or", "xor", "lshift", "rshift", "eq", "ne", "lt"],
+            {"V": [3, 2]}),
+    "frac": ([{"F": [1, 2]}, {"F": [-2, 3]}, 3, 4, {"F": [5, 8]}], ["add", "sub", "mul", "truediv", "eq", "ne", "ge"], {"V": [{"F": [1, 2]}, 3]}),
+    "vec": ([{"V": [1, 2]}, {"V": [{"F": [1, 2]}, 3]}, {"V": [0, -1]}, {"V": [1, 2]}],
+            ["add", "sub", "mul", "matmul", "eq", "ne", "lt", "le", "gt", "ge"], {"V": [1, 2]}),
+}
+
+
+def operand_cases(rng, tier):
+    cases = []
+    # every binary dunder x object x route, Stream of tracer elements
+    for d in BIN_DUNDERS:
+        for (name, enc, allowed) in operand_objects("sym"):
+            for route in routes_for(d, "scalar"):
+                if allowed is not None and route not in allowed:
+                    continue
+                ls = rng.choice([1, 3, 3, 4])
+                prog = {"k": "bin", "d": d, "route": route, "s": stream_of(leaf(rng.choice(["list", "gen"]), sym_vals("a", ls))),
+                        "o": {"k": "scalar", "c": enc}}
+                cases.append(expr_case(prog, fam="sym", okind="object:" + name))
+    # real arithmetic
+    for fam, (sv, names, vec) in VEC_NUM.items():
+        for nme in names:
+            ds = ["__%s__" % nme] + (["__r%s__" % nme] if nme in ARITH else [])
+            for d in ds:
+                for route in routes_for(d, "scalar"):
+                    prog = {"k": "bin", "d": d, "route": route, "s": stream_of(leaf("list", sv)), "o": {"k": "scalar", "c": vec}}
+                    cases.append(expr_case(prog, fam="vec." + fam, okind="object:Vec2.num"))
+    # nested: the object on both sides of two levels, as the only argument of Stream(...), next to lists and endless operands
+    objs = operand_objects("sym")
+    for i in range(60 if tier == "quick" else 400):
+        (n1, e1, a1), (n2, e2, a2) = rng.choice(objs), rng.choice(objs)
+        d1, d2 = rng.choice(BIN_DUNDERS), rng.choice(BIN_DUNDERS)
+        inner_s = stream_of(leaf("list", sym_vals("p%d_" % i, rng.choice([2, 3, 5]))))
+        o1 = {"k": "scalar", "c": e1}
+        inner = {"k": "bin", "d": d1, "s": inner_s, "o": o1,
+                 "route": rng.choice([r for r in routes_for(d1, "scalar") if a1 is None or r in a1])}
+        shape = rng.choice(["obj", "list", "streamobj", "cycle"])
+        if shape == "obj":
+            o2, ok2 = {"k": "scalar", "c": e2}, "scalar"
+        elif shape == "list":
+            o2, ok2 = leaf("list", sym_vals("q%d_" % i, rng.choice([1, 2, 4]))), "list"
+        elif shape == "streamobj":
+            o2, ok2 = stream_of({"k": "scalar", "c": e2}), "Stream"
+        else:
+            o2, ok2 = {"k": "stream2", "a": {"k": "scalar", "c": e2}, "b": {"k": "scalar", "c": {"S": "z"}}}, "cycle"
+        rs = [r for r in routes_for(d2, ok2) if ok2 != "scalar" or a2 is None or r in a2]
+        prog = {"k": "bin", "d": d2, "s": inner, "o": o2, "route": rng.choice(rs)}
+        cases.append(expr_case(prog, fam="sym", okind="object:nested", n=6))
+    return cases
+
+
+# ------------------------------------------------------------------------------------------------
 # operand flavours: every iterator kind the library hands out or accepts, on either side of every builder branch
 # ------------------------------------------------------------------------------------------------
 class _Probe(object):
@@ -1425,6 +1641,8 @@ def rand_tree(rng, d, fam):
         return [rng.choice([-4, -3, -2, -1, 0, 1, 2, 3, 4, 5, 7]) for _ in range(n)]
 
     def scalar():
+        if rng.random() < 0.2:      # an indexable object that is no Iterable
+            return rng.choice([e for (_, e, a) in operand_objects(fam) if a is None])
         return {"S": "k%d" % rng.randint(0, 9)} if fam == "sym" else rng.choice([-2, -1, 0, 1, 2, 3])
 
     def flavoured(m, p, want_stream):
@@ -1509,6 +1727,7 @@ def generate(rng, tier, scale=1):
         cases += malformed_cases()
         cases += flavour_cross(rng, tier)
         cases += primary_cross(rng)
+        cases += operand_cases(rng, tier)
     ntree = (300 if tier == "quick" else 5000) * scale
     maxd = 4 if tier == "quick" else 6
     for i in range(ntree):
@@ -1547,6 +1766,12 @@ def tally(eng, c, io):
                 if nd["k"] == "bin":
                     base, refl = base_of(nd["d"])
                     osort = "scalar" if nd["o"]["k"] in ("scalar", "ignored") else "iterable"
+                    if nd["o"]["k"] == "scalar" and is_object_enc(nd["o"]["c"]):
+                        ob = observe_operand(dec_val(nd["o"]["c"]))
+                        eng.count("operand_object", "%s | %s | %s | Iterable=%s iter()=%s len=%s" % (
+                            [k_ for k_ in OBJECT_KEYS if k_ in nd["o"]["c"]][0], "rbinary" if refl else "binary",
+                            nd.get("route", "direct"), ob["abc"], ob["iter"], ob["len"]))
+                        eng.count("operand_object_dunder", nd["d"])
                     eng.count("builder_branch", ("rbinary" if refl else "binary") + "/" + osort)
                 else:
                     eng.count("builder_branch", "unary")
@@ -1868,6 +2093,84 @@ ALL_KINDS = ["scalar", "str"] + SIZED + LAZY + STREAMS
 TUPLE_ITEM_KINDS = ("zip", "zip_longest", "enumerate")
 
 
+# user SUBCLASSES of the sized containers: the class identity is part of the kind ("sub:<base>:<number>"); the result of a
+# broadcast function must be of that very class (`type(res) is type(arg)`), whatever `isinstance` sees behind it
+import collections.abc as _abc
+
+
+class Vector(tuple):
+    """ the ordinary tuple subclass with domain methods """
+    def norm(self):
+        return sum(v * v for v in self) ** 0.5
+
+
+class Vector3(Vector):
+    """ a subclass of a subclass, with an attribute-less __slots__ """
+    __slots__ = ()
+
+
+class PlainTuple(tuple):
+    pass
+
+
+class Samples(list):
+    def rms(self):
+        return (sum(v * v for v in self) / max(len(self), 1)) ** 0.5
+
+
+class PlainList(list):
+    pass
+
+
+class TagSet(set):
+    def tags(self):
+        return sorted(self, key=repr)
+
+
+class FrozenBag(frozenset):
+    pass
+
+
+class Ring(deque):
+    def head(self):
+        return self[0]
+
+
+class UserSeq(_abc.Sequence):
+    """ a user Sequence that derives from no builtin container; constructor takes one iterable """
+    def __init__(self, data=()):
+        self._d = list(data)
+
+    def __getitem__(self, i):
+        return self._d[i]
+
+    def __len__(self):
+        return len(self._d)
+
+
+SUBCLASSES = [("tuple", Vector), ("tuple", PlainTuple), ("tuple", Vector3), ("list", Samples), ("list", PlainList),
+              ("set", TagSet), ("frozenset", FrozenBag), ("deque", Ring), ("sequence", UserSeq)]
+SUB_KINDS = ["sub:%s:%d" % (b, i) for i, (b, _c) in enumerate(SUBCLASSES)]
+BUILTIN_OF = {"list": list, "tuple": tuple, "set": set, "frozenset": frozenset, "deque": deque}
+
+
+def kind_base(k):
+    """ the builtin behaviour class of a container kind """
+    return k.split(":")[1] if k.startswith("sub:") else k
+
+
+def kind_class(k):
+    return SUBCLASSES[int(k.split(":")[2])][1] if k.startswith("sub:") else BUILTIN_OF[k]
+
+
+def is_setlike(k):
+    return kind_base(k) in ("set", "frozenset")
+
+
+def is_sized_kind(k):
+    return k in SIZED or k.startswith("sub:")
+
+
 class KW(object):
     def __init__(self, name):
         self.name = name
@@ -1929,9 +2232,9 @@ def bcast_items(c):
     """ the elements of the argument in iteration order, as the function sees them """
     vals = [dec_val(x) for x in c["xs"]]
     k = c["kind"]
-    if k in ("set", "frozenset"):
+    if is_setlike(k):
         # iteration order of the very same construction (deterministic: PYTHONHASHSEED is fixed by ./check)
-        return vals, list(set(vals) if k == "set" else frozenset(vals))
+        return vals, list(kind_class(k)(vals))
     if k == "range":
         a = BFUNCS.get(c["func"], ("", 0, "", 0, False))[3]
         vals = list(range(a, a + len(vals)))
@@ -1970,7 +2273,7 @@ def bcast_layout(c):
     lean_kind = {"thub": "streamSub", "ControlStream": "streamSub"}.get(k, k[:-4] if k in INF_LAZY else k)
     if k in ("scalar", "str"):
         arg = {"c": "obj", "kind": lean_kind, "self": ids[0]}
-    elif k in SIZED:
+    elif is_sized_kind(k):
         arg = {"c": "sized", "kind": lean_kind, "tag": 0, "xs": ids}
     elif k == "ControlStream" or k in INF_LAZY:
         arg = {"c": "lazy", "kind": lean_kind, "rep": ids[0]}
@@ -2012,6 +2315,8 @@ def impl_bcast(c):
         arg, counting = set(raw), False
     elif k == "frozenset":
         arg, counting = frozenset(raw), False
+    elif k.startswith("sub:"):
+        arg, counting = kind_class(k)(raw), False
     elif k == "generator":
         arg = src()
     elif k == "range":
@@ -2040,7 +2345,7 @@ def impl_bcast(c):
         arg, counting = filter(lambda v: True, it.repeat(raw[0])), False
     else:
         raise ValueError(k)
-    if k in ("set", "frozenset") and list(arg) != items:
+    if is_setlike(k) and list(arg) != items:
         return {"err": "UNSUPPORTED:set order"}
     f = bfun(c["func"])
     dn = BFUNCS[c["func"]][0]
@@ -2059,7 +2364,8 @@ def impl_bcast(c):
         out = "generator"
     elif isinstance(res, Stream):
         out = "stream"
-    elif k in SIZED:
+    elif is_sized_kind(k):
+        # the observation is the class identity: `type(res) is type(arg)` (an `==` against a tuple would not see a downcast)
         out = ("same:" + k) if type(res) is type(arg) else "other:" + type(res).__name__
     elif k in ("scalar", "str"):
         out = "value"
@@ -2090,7 +2396,7 @@ def impl_bcast(c):
             end = "err:" + err_kind(e)
     else:
         vals = [res]
-    if k in ("set", "frozenset"):
+    if is_setlike(k):
         obs["items"] = sorted(canon(v) for v in vals)
     else:
         obs["items"] = [canon(v) for v in vals]
@@ -2136,7 +2442,7 @@ def _cmp_bcast_side(c, io, side, label, env, with_reads):
     if io["out"] != exp_out:
         out.append("kind of the result: impl %s, %s %s (argument: %s)" % (io["out"], label, exp_out, k))
         return out
-    if k in ("set", "frozenset"):
+    if is_setlike(k):
         try:
             want = sorted(canon(v) for v in type(set())(vals))
         except TypeError:
@@ -2226,6 +2532,13 @@ def generate_bcast(rng, tier, scale):
                 cases.append(bcast_case(fn, kind, vals, "pos"))
                 if dn and not composite and kind in ("scalar", "list", "tuple", "generator", "stream", "set", "map"):
                     cases.append(bcast_case(fn, kind, vals, "kw"))
+            # user subclasses of the sized containers (class identity), by position and by keyword
+            if not fn.startswith("trace.") or dp in (None, 0):
+                for kind in SUB_KINDS:
+                    vals = [v for v in xs if not (isinstance(v, float) and v != v)] if is_setlike(kind) else xs
+                    cases.append(bcast_case(fn, kind, vals, "pos"))
+                    if dn and not composite:
+                        cases.append(bcast_case(fn, kind, vals, "kw"))
             # fewer items than asked for / more items than asked for / empty
             for kind in ("generator", "stream", "list", "filter", "tuple", "deque", "set"):
                 cases.append(bcast_case(fn, kind, [], "pos"))
@@ -2267,12 +2580,14 @@ def generate_bcast(rng, tier, scale):
         fn = rng.choice(names)
         dn, dp, pool, _r0, composite = BFUNCS[fn]
         kind = rng.choice([k for k in ALL_KINDS if not (composite and k in TUPLE_ITEM_KINDS)])
+        if rng.random() < 0.25:
+            kind = rng.choice(SUB_KINDS)
         base = POOLS[pool]
         m = rng.choice([0, 1, 2, 3, 5, 8])
         vals = [rng.choice(base) for _ in range(m)] or ([] if kind not in ("scalar", "str", "ControlStream") + tuple(INF_LAZY) else base[:1])
         if kind == "str" and pool != "note":
             vals = [{"T": rng.choice(["abc", "", "x"])}]
-        if kind in ("set", "frozenset"):
+        if is_setlike(kind):
             vals = [v for v in vals if not (isinstance(v, float) and v != v)]
         route = "pos"
         before = []
@@ -2287,6 +2602,9 @@ def generate_bcast(rng, tier, scale):
 def tally_bcast(eng, c, io):
     eng.count("bcast_func", c["func"])
     eng.count("bcast_kind", c["kind"])
+    if c["kind"].startswith("sub:"):
+        eng.count("bcast_subclass", "%s(%s) | %s" % (kind_class(c["kind"]).__name__, kind_base(c["kind"]), c.get("route", "pos")))
+        eng.count("bcast_subclass_func", c["func"])
     eng.count("bcast_route", c.get("route", "pos") + ("+extra" if c.get("before") or c.get("after") or c.get("kwargs") else ""))
     eng.count("bcast_out", io.get("out", "raised:" + str(io.get("err"))))
     if "err" not in io:
@@ -2310,7 +2628,7 @@ def shrink_bcast(c):
 
 
 def neighbours_bcast(c):
-    for kind in ALL_KINDS:
+    for kind in ALL_KINDS + SUB_KINDS:
         if kind != c["kind"] and not (BFUNCS[c["func"]][4] and kind in TUPLE_ITEM_KINDS):
             xs = c["xs"] if kind != "str" or BFUNCS[c["func"]][2] == "note" else [{"T": "abc"}]
             if (kind in ("scalar", "ControlStream") or kind in INF_LAZY) and not xs:
@@ -2322,7 +2640,7 @@ def neighbours_bcast(c):
 
 
 def _kind_class(k):
-    return "scalar" if k in ("scalar", "str") else "sized" if k in SIZED else "stream" if k in STREAMS else "lazy"
+    return "scalar" if k in ("scalar", "str") else "sized-subclass" if k.startswith("sub:") else "sized" if k in SIZED else "stream" if k in STREAMS else "lazy"
 
 
 def classify_bcast(c, io, drv):
